@@ -29,6 +29,11 @@ def gen_case(seed: int, tier: str, index: int, base_gen) -> Dict[str, Any]:
         # a second blocking client in the same process, connected to the same spa (an application with two connections): each applies its
         # own copies of the partial updates; their engine threads (only those) are pre-empted at line level inside the update path
         cfg["second_client"] = True
+        # (line tracing of two engine threads is expensive: a short history with moderate messages is enough for the overlap)
+        c["plan"] = [o for o in c["plan"] if o["op"] != "revert"][:10]
+        for o in c["plan"]:
+            if o["op"] == "statp":
+                o["recs"] = o["recs"][:30]
         cfg["sched"].update(preempt_p=rng2.choice([0.05, 0.2, 0.5]), preempt_files=["/spa.py", "statusblock.py"], preempt_threads=["_thread_func"])
     rng = random.Random(mix(seed, "c05t"))
     cfg["tables"] = {"idle": {"PING_FREQUENCY_IN_SECONDS": rng.choice([2, 5, 60]), "PROTOCOL_TIMEOUT_IN_SECONDS": rng.choice([1, 2]),
